@@ -109,6 +109,7 @@ FAMILY_AFFINITY = {
 }
 
 
+PRECISION_TWIN_FAMS = ("gelu", "hardswish", "layer_norm", "rms_norm")
 FAMILY_AFFINITY_2 = {"gen:rms_norm": "ort:rms_normalization,softmax", "gen:fold_chain": None, "gen:user_rules": "user:commute"}
 FAMILY_AFFINITY_3 = {"gen:opset_twins": [("optimize", {"api": "fold_pass"}), ("optimize", {"api": "ir"}), ("optimize", {"api": "proto"})],
                      "gen:local_functions": [("optimize", {"api": "inline"}), ("optimize", {"api": "proto"}), ("optimize", {"api": "ir"})],
@@ -184,6 +185,8 @@ def gen_targets(seed: int, tier: dict, pools) -> list[dict]:
     gen_slots, gen_member = [], []
     for gf in gen_fams:
         n_mem = max(per_fam, genmodels.members_per_batch(gf, per_fam, cap=tier.get("variant_cap", 10)))
+        if gf in PRECISION_TWIN_FAMS:
+            n_mem = max(4, n_mem + n_mem % 2)   # members 2j and 2j+1: one text, two floating-point precisions
         gen_slots += [gf] * n_mem
         gen_member += list(range(n_mem))
     from dsim.c14 import genmodels
@@ -324,14 +327,19 @@ def gen_targets(seed: int, tier: dict, pools) -> list[dict]:
         r = rng.sub("m", i)
         member_idx = None
         if i < len(gen_slots):
-            f, text = genmodels.gen_model(r.sub("gen"), gen_slots[i], member=gen_member[i],
-                                          offset=rng.sub("variant-offset", gen_slots[i]).below(64))
+            ptwin = gen_slots[i] in PRECISION_TWIN_FAMS
+            mm = gen_member[i]
+            # precision twins: members 2j and 2j+1 of these families are ONE text in two floating-point precisions (the rules
+            # match constants by value, in the precision of the model at hand)
+            f, text = genmodels.gen_model(rng.sub("ptwin", gen_slots[i], mm // 2) if ptwin else r.sub("gen"), gen_slots[i],
+                                          member=mm // 2 if ptwin else mm, offset=rng.sub("variant-offset", gen_slots[i]).below(64))
             m = {"pool": "text", "text": text, "family": f}
-            member_idx = gen_member[i]
-            if r.sub("node-meta").chance(0.35):
+            member_idx = mm
+            if r.sub("node-meta").chance(0.35) and not ptwin:
                 m["node_meta"] = True
-            # the same member in another floating-point precision (constants matched by value are then compared in that type)
-            if r.sub("retype").chance(0.4 if f in ("gen:gelu", "gen:hardswish", "gen:rms_norm", "gen:layer_norm", "gen:conv_affine") else 0.1):
+            if ptwin and mm % 2:
+                m["retype"] = ["FLOAT16", "BFLOAT16", "FLOAT16", "DOUBLE"][(mm // 2) % 4]
+            elif not ptwin and r.sub("retype").chance(0.08):
                 m["retype"] = r.sub("retype-kind").choice(["FLOAT16", "FLOAT16", "BFLOAT16", "DOUBLE"])
         elif i < len(gen_slots) + len(script_slots):
             f, fn, src = script_slots[i - len(gen_slots)]
